@@ -113,6 +113,8 @@ structure Env where
   defOf : Id → Option Def
   /-- names of the `Prefix` namespace in key order -/
   prefixNames : List String
+  /-- element symbol ↦ the substance definition that declares it -/
+  symbolOf : String → Option Id := fun _ => none
 
 def namespacesFor (ctx : Namespace) : List Namespace :=
   match ctx with
@@ -187,9 +189,22 @@ def lookup (env : Env) : Nat → RS → String → Namespace → RS × Bool
   | fuel + 1, st, name, ctx =>
     let (st', ok) := lookupWithPrefix env fuel st name ctx
     if ok then (st', true)
-    else match Registry.stripS name with
-      | some n => lookupWithPrefix env fuel st' n ctx
-      | none => (st', false)
+    else
+      let (st2, ok2) := match Registry.stripS name with
+        | some n => lookupWithPrefix env fuel st' n ctx
+        | none => (st', false)
+      if ok2 then (st2, true)
+      else
+        -- `lookup_formula`: an element symbol or a chemical formula depends on the substances that
+        -- declare its symbols
+        match (Formula.formulaSymbols name).bind fun syms => syms.mapM env.symbolOf with
+        | some ids => (visitAll env fuel st2 ids, true)
+        | none => (st2, false)
+
+def visitAll (env : Env) : Nat → RS → List Id → RS
+  | 0, st, _ => { st with outOfFuel := true }
+  | _, st, [] => st
+  | fuel + 1, st, id :: rest => visitAll env fuel (visit env fuel st id) rest
 end
 
 /-- `while let Some(name) = unmarked.first() { visit(name) }` over the ids in key order -/
@@ -498,8 +513,11 @@ def finish (st : LS) (inp : Input) : LS :=
 def loadDefs (st : LS) (defs : List DefEntry) : LS :=
   let inp := buildInput defs
   let defMap : Std.HashMap Id Def := inp.input.foldl (fun m (k, v) => m.insert k v) {}
+  let symMap : Std.HashMap String Id := inp.input.foldl (fun m (k, v) =>
+    match v with | .substance (some sym) _ => m.insert sym k | _ => m) {}
   let env : Env := { defOf := fun id => defMap[id]?,
-                     prefixNames := (inp.input.filter fun x => x.1.ns == .prefix_).map (·.1.name) }
+                     prefixNames := (inp.input.filter fun x => x.1.ns == .prefix_).map (·.1.name),
+                     symbolOf := fun s => symMap[s]? }
   let fuel := 64 * (inp.input.length + 8)
   let rs0 : RS := { unmarked := inp.unmarked.foldl (fun s k => s.insert k) {}, errors := inp.errors }
   -- base units first (they depend on nothing and can be referred to by their long names, which
